@@ -220,6 +220,7 @@ def run(ctx):
     import lemmas
     lemmas.flat_map_lockstep(fx, res, "R1.1")
     lemmas.build_subcommand_name_exists(fx, res, "R1.1")
+    lemmas.flag_subcommand_lookup_canonical(fx, res, "R1.1")
     # ---------------- R1.4b worklist loops terminate
     GATED = {"clap_builder::builder::command::Command::unroll_args_in_group": "group members are argument ids (assert_app)"}
     nwl = 0
